@@ -313,6 +313,14 @@ def classify(run: PropertyRun, known: dict):
     return new, kn, regress
 
 
+def _full_explanation(prop, meta):
+    try:
+        from .meta import full_explanation
+        return full_explanation(prop)
+    except Exception:
+        return meta.get("explanation", "")
+
+
 def write_evidence(run: PropertyRun, new, kn, meta: dict, seed: int, out_dir: Optional[str] = None) -> str:
     out_dir = out_dir or os.path.join(VERIF, "evidence")
     os.makedirs(out_dir, exist_ok=True)
@@ -326,7 +334,7 @@ def write_evidence(run: PropertyRun, new, kn, meta: dict, seed: int, out_dir: Op
         samples.append(o.as_dict())
     stats = ctx.program.stats if ctx else {}
     cov = {
-        "explanation": meta.get("explanation", ""),
+        "explanation": _full_explanation(run.prop, meta),
         "rule": "one obligation per rule instance found in /repo's current source; the obligation set of "
                 "each rule is enumerated completely (finite), so every instance is decided, not sampled",
         "obligations": len(obs),
